@@ -153,12 +153,16 @@ func vfC14Line(c int) {
 	lat1, lat2, z := vfLineDecode(c)
 	lon1, lon2 := vfReal("lon1"), vfReal("lon2")
 	vfAssume(vfAnd(vfAnd(lon1 > -180, lon1 < 180), vfAnd(lon2 > -180, lon2 < 180)))
+	// the property quantifies over line strings of positive length (a zero-length one has an empty cover)
+	if lat1 == lat2 {
+		vfAssume(lon1 != lon2)
+	}
 	a, b := orb.Point{lon1, lat1}, orb.Point{lon2, lat2}
 	set := LineString(orb.LineString{a, b}, z)
 	vfReach("line")
 	fa, fb := maptile.Fraction(a, z), maptile.Fraction(b, z)
 	n := 1 << uint(z)
-	vfAssert("cover-not-empty", vfOr(len(set) > 0, vfAnd(fa[0] == fb[0], fa[1] == fb[1])))
+	vfAssert("cover-not-empty", len(set) > 0)
 	// every point of the segment that is strictly inside a tile lies in a tile of the cover
 	t := vfReal("t")
 	vfAssume(vfAnd(t >= 0, t <= 1))
